@@ -42,6 +42,15 @@ def run : List String → String
        let b := (l8OfXml tid.toNat lift gain gamma chroma sat ms mid clip (rest.take 6) (rest.drop 6)).block
        s!"ok {b.length} " ++ ",".intercalate (b.vals.map toString)
      | _ => "bad-op")
+  | ["xmlenc", "l9", a] =>
+    let b := l9OfXml (ints a)
+    s!"ok {b.length} " ++ ",".intercalate (b.vals.map toString)
+  | ["xmlenc", "l10", a] =>
+    (match ints a with
+     | tid :: mx :: mn :: p =>
+       let b := l10OfXml tid.toNat mx.toNat mn.toNat p
+       s!"ok {b.length} " ++ ",".intercalate (b.vals.map toString)
+     | _ => "bad-op")
   | _ => "bad-op"
 
 end Driver.GenXmlOps
